@@ -294,6 +294,7 @@ func checkC07(c *Check) {
 	c.establishedBeatsInProgress("C07.4 established-wins")
 	c.midTransitionCease("C07.3 cease-to-loser")
 	c.disableEnablePairing("C07.5 fsm-table-consistent")
+	c.dampPeerRule("C07.6 cease-never-damps")
 }
 
 // chanThroughField: the channel value was loaded through the named array/field.
